@@ -36,8 +36,8 @@ def rules_owners(run, P='C05'):
     run.floor(n, 4, r, 'queue writers')
 
 
-def rules_select_event(run, P='C05'):
-    r = run.rule(P + '.3', '_select_event examines the internal queue before the external one, looks at index 0 only, '
+def rules_select_event(run, P='C05', rid='.3'):
+    r = run.rule(P + rid, '_select_event examines the internal queue before the external one, looks at index 0 only, '
                            'applies the due test `queued <= step time`, pops index 0 of the peeked queue only under consume')
     fi = run.fn('Interpreter._select_event')
     F = fi.node
